@@ -35,14 +35,16 @@
   Sizes are parameters (`Sizes`).  Not modelled: the fixed process-level
   allocations (thread descriptors, stdio, `struct parser_state` is static).
 
-  Hypotheses, stated explicitly: `failf` has not been called (`failf` exits the
-  process; the model has no transition from a failed state and C11's
-  conservation laws are stated for non-failed states), input granularity
-  `W ≥ 1`, `n ≥ 1`, and `EMIT_THRESH < total_out` (needed by
-  `unord_q_capacity`; the shipped slot formulas give `total_out ≥ 2n`, and
-  `16n` without `-s`).
+  Hypotheses, stated explicitly: input granularity `W ≥ 1`, `n ≥ 1`, and
+  `EMIT_THRESH < total_out` (needed by `unord_q_capacity`; the shipped slot
+  formulas give `total_out ≥ 2n`, and `16n` without `-s`).  `live_le` holds in
+  ALL reachable states, including the one in which `failf` has just been called
+  (C11's conservation laws are stated for non-failed states; a failing
+  transition only takes a buffer out of `reord_q`: `Lemmas/SchedD/MemFail.lean`);
+  `small_objects` (queue capacities) is stated for non-failed states.
 -/
 import LbzVerif.Lemmas.SchedD.Mem
+import LbzVerif.Lemmas.SchedD.MemFail
 import LbzVerif.Lemmas.SchedD.Witness
 
 namespace LbzVerif.Props.C13.Expand
@@ -82,14 +84,13 @@ def memBound (z : Sizes) (c : Cfg) : Nat :=
     + (z.ptrBytes * (2 * c.totalIn + 3 * c.n + 2 * c.totalOut) + z.headBytes * (c.n + c.totalOut))
 
 /-- **C13 (decompression)**: live bytes never exceed `memBound`, whatever the
-    input (size, compression ratio, planted block headers) and the schedule. -/
+    input (size, compression ratio, planted block headers) and the schedule, in
+    every reachable state (failed or not). -/
 theorem live_le (z : Sizes) {c : Cfg} (hW : 0 < c.W) (hn : 1 ≤ c.n) (ho : EMIT_THRESH < c.totalOut)
-    {s : State} (h : Reach c s) (hf : s.failed = false) : liveBytes z c s ≤ memBound z c := by
-  have a : decHolders s ≤ c.n := by have := dec_le h hf; omega
+    {s : State} (h : Reach c s) : liveBytes z c s ≤ memBound z c := by
+  obtain ⟨a, d, e'⟩ := holders_le_all hW hn ho h
   have b : inputAlive s ≤ c.totalIn := by have := input_le hW h; omega
-  have d : slotsHeld s ≤ c.totalOut := by have := slots_le h hf; omega
   have e : unordLive s ≤ 2 * c.n + c.totalOut := by
-    have := unordLive_le hW hn ho h hf
     have := unordCap_le c.n c.totalOut
     omega
   have f : scanLive s ≤ c.totalIn := scanLive_le hW h
@@ -181,12 +182,11 @@ theorem cfgOfGen_hyps (n T : Nat) (u : Bool) (pa : Nat → PRes) (rf : Nat → R
 
 /-- C13 for the shipped configuration, in one statement -/
 theorem live_le_gen (z : Sizes) (n T : Nat) (u : Bool) (pa : Nat → PRes) (rf : Nat → RRes)
-    (cd : List Nat) (hn : 1 ≤ n) {s : State} (h : Reach (cfgOfGen n T u pa rf cd) s)
-    (hf : s.failed = false) :
+    (cd : List Nat) (hn : 1 ≤ n) {s : State} (h : Reach (cfgOfGen n T u pa rf cd) s) :
     liveBytes z (cfgOfGen n T u pa rf cd) s ≤ n * perWorker z := by
   obtain ⟨h1, h2, h3⟩ := cfgOfGen_hyps n T u pa rf cd hn
   rw [← memBound_linear z n T u pa rf cd]
-  exact live_le z h1 h2 h3 h hf
+  exact live_le z h1 h2 h3 h
 
 /-! ### non-vacuity -/
 
@@ -196,7 +196,7 @@ example : liveBytes ⟨1000, 100, 10, 72, 40, 8, 24⟩ cfgF4 (init cfgF4) =
     8 * (4 + 4 + 3 + 4) + 24 * 6 ∧
     liveBytes ⟨1000, 100, 10, 72, 40, 8, 24⟩ cfgF4 (init cfgF4) ≤
       memBound ⟨1000, 100, 10, 72, 40, 8, 24⟩ cfgF4 :=
-  ⟨by decide, live_le _ (by decide) (by decide) (by decide) Reach.init rfl⟩
+  ⟨by decide, live_le _ (by decide) (by decide) (by decide) Reach.init⟩
 
 /-- … and somewhere on the former F4 run decoders, input blocks, output
     buffers and an unord_blk are alive at the same time -/
